@@ -12,7 +12,7 @@
    <<"VERDICT", line, class>> and the run continues from the observed state, so the rest
    of the trace is still examined.  Disagreement with the code-shaped layer only is
    printed as <<"DRIFT", line>>.                                                      *)
-EXTENDS HeaderOps, Json, IOUtils
+EXTENDS HeaderMachine, Json, IOUtils
 
 Rec == ndJsonDeserialize(IOEnv.TRACE)
 
